@@ -42,6 +42,42 @@ def scratch(unicode_dir=False):
     return d
 
 
+def form_path(d, name, form):
+    """The path string handed to the code under test for the file `name` of the case directory d (which is the current
+    directory while the case runs): 'abs' - absolute; 'bare' - the bare file name; 'dot' - './name'; 'sub' - 'sub/name'
+    with the directory present; 'sub-missing' - 'nosuch/name', the directory absent; 'abs-sub' - absolute, in a
+    sub-directory; 'dotdot' - 'sub/../name'.  The same strings reach the journal and the checks through abspath."""
+    if form in (None, 'abs'):
+        return os.path.join(d, name)
+    if form == 'bare':
+        return name
+    if form == 'dot':
+        return os.path.join(os.curdir, name)
+    if form == 'sub':
+        return os.path.join('sub', name)
+    if form == 'abs-sub':
+        return os.path.join(d, 'sub', name)
+    if form == 'dotdot':
+        return os.path.join('sub', os.pardir, name)
+    if form == 'sub-missing':
+        return os.path.join('nosuch', name)
+    raise ValueError(form)
+
+
+class WorkDir(object):
+    """the case runs with its scratch directory as the current directory (relative paths resolve there)"""
+    def __init__(self, d):
+        self.d = d
+
+    def __enter__(self):
+        self.old = os.getcwd()
+        os.makedirs(os.path.join(self.d, 'sub'))
+        os.chdir(self.d)
+
+    def __exit__(self, *a):
+        os.chdir(self.old)
+
+
 def write_file(path, spec):
     with REAL_OPEN(path, 'wb') as f:
         if filespec.is_sparse(spec):
@@ -214,7 +250,8 @@ def make_cassette(kind, d):
 def run_trip(case):
     d = scratch(case.get("dir") == "unicode")
     try:
-        return _run_trip(case, d)
+        with WorkDir(d):
+            return _run_trip(case, d)
     finally:
         shutil.rmtree(d, ignore_errors=True)
         fake_s3.reset()
@@ -222,10 +259,13 @@ def run_trip(case):
 
 def _run_trip(case, d):
     name = case["name"]
-    paths = {r: os.path.join(d, r.lower() + '.bin') for r in ("RI", "RO", "PI", "PO")}
-    if case.get("unwritable"):
+    forms = case.get("path_form") or {}
+    paths = {r: form_path(d, r.lower() + '.bin', forms.get("rec" if r[0] == "R" else "play"))
+             for r in ("RI", "RO", "PI", "PO")}
+    if case.get("unwritable") and forms.get("play") != "sub-missing":
         paths["PI"] = os.path.join(d, 'no-such-dir', 'pi.bin')
-    roles = {p: r for r, p in paths.items()}
+    roles = {p: r for r, p in paths.items()}                             # by the string handed to the code
+    abs_roles = {os.path.abspath(p): r for r, p in paths.items()}       # by the file (journal of open calls)
 
     def role_of(p):
         return roles.get(p, '?') if isinstance(p, str) else '?'
@@ -285,7 +325,7 @@ def _run_trip(case, d):
 
     write_file(paths["RI"], case["content"])
     out = {}
-    with Journal(roles) as j:
+    with Journal(abs_roles) as j:
         Op().execute(caller(case["in"], 'in', case["in"]["rec"], paths["RI"]),
                      caller(case["out"], 'out', case["out"]["rec"], paths["RO"]),
                      paths["RO"], case["out_content"])
@@ -324,7 +364,7 @@ def _run_trip(case, d):
     del bodies[:]
     del in_errors[:]
     box = []
-    with Journal(roles) as j:
+    with Journal(abs_roles) as j:
         try:
             playback = recorder.play(rid, lambda r: box.append(Op().execute(
                 caller(case["in"], 'in', case["in"]["play"], paths["PI"]),
@@ -358,7 +398,7 @@ def _run_trip(case, d):
     out["holder_play"] = holder(playback.playback_outputs)
     # the holder can materialise the file
     try:
-        hp = os.path.join(d, 'holder.bin')
+        hp = form_path(d, 'holder.bin', forms.get("holder"))
         vals = [o.value for o in playback.recorded_outputs if 'store' in o.key]
         oh.restore_output_from_recording(vals[0]).to_file(hp)
         out["holder_file"] = filespec.show_bytes(read_file(hp))
@@ -370,7 +410,8 @@ def _run_trip(case, d):
 def run_seq(case):
     d = scratch(case.get("dir") == "unicode")
     try:
-        return _run_seq(case, d)
+        with WorkDir(d):
+            return _run_seq(case, d)
     finally:
         shutil.rmtree(d, ignore_errors=True)
         fake_s3.reset()
@@ -381,7 +422,8 @@ def _run_seq(case, d):
     another with the same call - hence into the same path; observed: the bytes at that path after every replay."""
     name = case["name"]
     side = case["in"]
-    ri, pi = os.path.join(d, 'ri.bin'), os.path.join(d, 'pi.bin')
+    forms = case.get("path_form") or {}
+    ri, pi = form_path(d, 'ri.bin', forms.get("rec")), form_path(d, 'pi.bin', forms.get("play"))
     lim = case["limit"]
     with EnvVar(lim.get("env")):
         ih = InputInterceptionFileDataHandler(side["index"], name, explicit_limit(lim))
